@@ -22,6 +22,7 @@ type CEnv struct {
 	cur   *State
 	old   *State
 	pre   *State // loop invariants: the state at loop entry (before the loop's havoc)
+	qstack   []Term // bound variables of the enclosing quantifiers (typing facts about terms over them are closed)
 	rangeKey string // loop invariants of a range over a map: the ghost set of keys already visited
 	iter  *State // step clauses: the state at the start of the current iteration
 	pkg   string
@@ -153,7 +154,9 @@ func (c *CEnv) eval(x CExpr) (TT, error) {
 		}
 		c.depth++
 		c.vars[n.Var] = TT{qv, qt}
+		c.qstack = append(c.qstack, qv)
 		defer func() {
+			c.qstack = c.qstack[:len(c.qstack)-1]
 			c.depth--
 			if had {
 				c.vars[n.Var] = saved
@@ -516,13 +519,14 @@ func (c *CEnv) evalCall(n *CCall) (TT, error) {
 		}
 		isT := eq(T(SInt, "(tag %s)", x.S), e.typeID(t))
 		// ground instance of: a value of dynamic type T is the box of its payload
-		e.assume(tTrue, implies(isT, eq(e.box(t, e.unbox(t, x.Term)), x.Term)))
+		tagT := T(SInt, "(tag %s)", x.S)
+		c.assumeFact(implies(isT, eq(e.box(t, e.unbox(t, x.Term)), x.Term)), tagT)
 		// payloads are values of their Go type (machine integers are in range, boxed pointers are allocated and non-nil)
 		for _, f := range e.typeFacts(e.unbox(t, x.Term), t, e.heapGet(c.cur, e.allocKey())) {
-			e.assume(tTrue, implies(isT, f))
+			c.assumeFact(implies(isT, f), tagT)
 		}
 		if _, isPtr := t.Underlying().(*types.Pointer); isPtr {
-			e.assume(tTrue, implies(isT, T(SBool, "(not (= %s 0))", e.unbox(t, x.Term).S)))
+			c.assumeFact(implies(isT, T(SBool, "(not (= %s 0))", e.unbox(t, x.Term).S)), tagT)
 		}
 		return TT{isT, nil}, nil
 	case "addr":
@@ -684,6 +688,67 @@ func (c *CEnv) evalCall(n *CCall) (TT, error) {
 		oa := e.heapGet(c.old, e.allocKey())
 		na := e.heapGet(c.cur, e.allocKey())
 		return TT{T(SBool, "(and (>= %s %s) (< %s %s))", ref.S, oa.S, ref.S, na.S), nil}, nil
+	case "as":
+		// as(x, T): an integer-sorted ghost value read as a pointer or map of Go type T
+		x, err := c.eval(n.Args[0])
+		if err != nil {
+			return TT{}, err
+		}
+		ct, ok := n.Args[1].(*CType)
+		if !ok {
+			if id, isId := n.Args[1].(*CIdent); isId {
+				ct = &CType{id.Name}
+			} else if sel, isSel := n.Args[1].(*CSel); isSel {
+				ct = &CType{sel.String()}
+			} else {
+				return TT{}, fmt.Errorf("as(x, T): T must be a type name")
+			}
+		}
+		t, err := c.resolveType(ct.T)
+		if err != nil {
+			return TT{}, err
+		}
+		if x.Sort != SInt || e.sortOf(t) != SInt {
+			return TT{}, fmt.Errorf("as(): only integer-sorted values (pointers, maps, integers) can be retyped")
+		}
+		return TT{x.Term, t}, nil
+	case "deref":
+		// deref(p): the value of the cell a pointer to a non-struct value points to
+		x, err := c.eval(n.Args[0])
+		if err != nil {
+			return TT{}, err
+		}
+		pt, ok := x.T.Underlying().(*types.Pointer)
+		if x.T == nil || !ok {
+			return TT{}, fmt.Errorf("deref() of non-pointer %s", n.Args[0])
+		}
+		el := pt.Elem()
+		if _, isStruct := el.Underlying().(*types.Struct); isStruct || e.isElemPtrType(el) {
+			return TT{}, fmt.Errorf("deref() needs a pointer to a scalar, interface, string, slice or map cell")
+		}
+		so := e.sortOf(el)
+		return TT{sel(e.heapGet(c.cur, e.cellKey(so)), x.Term, so), el}, nil
+	case "arg":
+		// arg(k): the k-th actual argument of the call a callsite clause is attached to (receiver first for invokes)
+		if lit, ok := n.Args[0].(*CLit); ok {
+			if v, ok := c.vars["$arg"+lit.V]; ok {
+				return v, nil
+			}
+			return TT{}, fmt.Errorf("arg(%s): the call has no such argument (or arg() used outside a callsite clause)", lit.V)
+		}
+		return TT{}, fmt.Errorf("arg(): argument position must be a literal")
+	case "allocatedAfter":
+		// the object (or the backing array of the slice) was allocated by the current activation
+		x, err := c.eval(n.Args[0])
+		if err != nil {
+			return TT{}, err
+		}
+		ref := x.Term
+		if x.Sort == SSlice {
+			ref = T(SInt, "(s_arr %s)", x.S)
+		}
+		a0 := e.heapGet(c.old, e.allocKey())
+		return TT{T(SBool, "(>= %s %s)", ref.S, a0.S), nil}, nil
 	case "allocated":
 		x, err := c.eval(n.Args[0])
 		if err != nil {
@@ -1005,6 +1070,17 @@ func (c *CEnv) havocTarget(m CExpr, pre, st *State) error {
 		}
 		return fmt.Errorf("no field %s", n.F)
 	case *CCall:
+		if n.Fn == "cells" && len(n.Args) == 1 {
+			// cells(T): every pointed-to cell holding a T (locals whose address is taken, *T out-parameters)
+			if id, ok := n.Args[0].(*CIdent); ok {
+				if t, err := c.resolveType(id.Name); err == nil {
+					key := e.cellKey(e.sortOf(t))
+					st.heaps[key] = e.fresh("hv_cells", e.heapSort[key])
+					return nil
+				}
+			}
+			return fmt.Errorf("cells() needs a type name")
+		}
 		if n.Fn == "mapof" && len(n.Args) == 1 {
 			xv, err := pc.eval(n.Args[0])
 			if err != nil {
@@ -1073,6 +1149,13 @@ func (e *Enc) modKeys(m CExpr, c *Contract) []string {
 		}
 		return out
 	case *CCall:
+		if n.Fn == "cells" && len(n.Args) == 1 {
+			if id, ok := n.Args[0].(*CIdent); ok {
+				if t, err := e.w.lookupType(id.Name, c.Pkg); err == nil {
+					return []string{e.cellKey(e.sortOf(t))}
+				}
+			}
+		}
 		if n.Fn == "mapof" {
 			var out []string
 			for k := range e.heapSort {
@@ -1097,6 +1180,30 @@ func (e *Enc) modKeys(m CExpr, c *Contract) []string {
 
 // heapValueFacts: a value read from an allocated object is well formed and refers only to allocated objects
 // (heap invariant; guarded by the allocatedness of the object read, so that it says nothing about unallocated cells).
+// assumeFact: a typing fact about a contract term.  Inside a quantifier the term mentions bound variables, so the
+// fact is asserted universally closed (it is a guarded truth about every value of the term), triggered on pat.
+func (c *CEnv) assumeFact(fact Term, pat Term) {
+	if len(c.qstack) == 0 {
+		c.e.assume(tTrue, fact)
+		return
+	}
+	var bs []string
+	used := false
+	for _, q := range c.qstack {
+		bs = append(bs, fmt.Sprintf("(%s %s)", q.S, q.Sort))
+		if strings.Contains(fact.S, q.S) {
+			used = true
+		}
+	}
+	if !used {
+		c.e.assume(tTrue, fact)
+		return
+	}
+	// no explicit trigger: contract terms expand to define-funs containing ite, which solvers reject in patterns
+	_ = pat
+	c.e.assume(tTrue, T(SBool, "(forall (%s) %s)", strings.Join(bs, " "), fact.S))
+}
+
 func (c *CEnv) heapValueFacts(v Term, t types.Type, ref Term) {
 	e := c.e
 	switch u := t.Underlying().(type) {
@@ -1111,6 +1218,6 @@ func (c *CEnv) heapValueFacts(v Term, t types.Type, ref Term) {
 	alloc := e.heapGet(c.cur, e.allocKey())
 	guard := T(SBool, "(and (> %s 0) (< %s %s))", ref.S, ref.S, alloc.S)
 	for _, f := range e.typeFacts(v, t, alloc) {
-		e.assume(tTrue, implies(guard, f))
+		c.assumeFact(implies(guard, f), v)
 	}
 }
